@@ -11,6 +11,7 @@ from xsdata.formats.dataclass.parsers.bases import NodeParser
 from xsdata.formats.dataclass.parsers.config import ParserConfig
 from xsdata.formats.dataclass.parsers.mixins import EventsHandler, XmlNode
 from xsdata.formats.dataclass.parsers.utils import ParserUtils
+from xsdata.models.enums import Namespace
 from xsdata.utils.namespaces import target_uri
 
 
@@ -85,7 +86,8 @@ class UnionNode(XmlNode):
             parent_ns: The parent namespace
         """
         if not self.context.class_type.is_model(candidate):
-            return not self.attrs
+            # Attributes of the xsi namespace may appear on any element
+            return all(target_uri(qname) == Namespace.XSI.uri for qname in self.attrs)
 
         meta = self.context.build(candidate, parent_ns=parent_ns)
         for qname, value in self.attrs.items():
